@@ -48,7 +48,7 @@ PROBES = ['server:after-banner', 'server:after-command', 'server:mid-line',
           'client:pipe', 'client:pipe-slow', 'client:http',
           'client:http-body-stall', 'client:lmtp',
           'client:reuse',
-          'client:idle-partial']
+          'client:idle-partial', 'server:partial-line-behind-command']
 STATES_MEASURE = 'distinct (side, relay kind, stage, stall shape, pipelining) tuples'
 STEP_CAP = 400000
 SRV_STAGES = ['after-banner', 'after-command', 'after-command', 'mid-line',
@@ -71,7 +71,8 @@ def generate(seed, tier='quick'):
             'command_timeout': rng.choice([5.0, 30.0]),
             'data_timeout': rng.choice([None, 20.0, 60.0]),
             'after': rng.choice(['EHLO', 'MAIL', 'RCPT', 'NOOP', 'RSET']),
-            'gap': rng.choice([1.0, 3.0])})
+            'gap': rng.choice([1.0, 3.0]),
+            'joined': rng.random() < 0.5})
     else:
         kind = rng.choice(['smtp', 'smtp', 'smtp', 'lmtp', 'pipe', 'pipe1',
                            'http'])
@@ -182,7 +183,15 @@ def _server(world, scn, result):
         elif stage == 'mid-line':
             trickle_data = b'MAIL FROM:<very-slow-sender@a.example'
             if scn['shape'] == 'silent':
-                sock.sendall(b'MAIL FR')
+                if scn.get('joined'):
+                    # the unfinished line arrives in the same segment as a
+                    # complete command before it
+                    sock.sendall(b'NOOP\r\nMAIL FR')
+                    cl.read_reply(timeout=1000.0)
+                    t_ref = now()
+                    world.probe('server:partial-line-behind-command')
+                else:
+                    sock.sendall(b'MAIL FR')
                 trickle_data = None
         elif stage in ('in-data', 'after-eod'):
             cmd(b'MAIL FROM:<s@a.example>')
@@ -196,10 +205,13 @@ def _server(world, scn, result):
                 else:
                     trickle_data = b'Subject: trickle\r\n\r\n' + b'x' * 400
             else:
-                sock.sendall(b'Subject: x\r\n\r\nbody\r\n.\r\n')
+                sock.sendall(b'Subject: x\r\n\r\nbody\r\n.\r\n' +
+                             (b'QUI' if scn.get('joined') else b''))
                 cl.read_reply(timeout=1000.0)
                 t_ref = now()
                 limit = ct
+                if scn.get('joined'):
+                    world.probe('server:partial-line-behind-command')
         elif stage == 'auth-continuation':
             sock.sendall(b'AUTH PLAIN\r\n')
             r = cl.read_reply(timeout=1000.0)
